@@ -131,6 +131,8 @@ pub fn total_strings(max_len: usize) -> u64 {
 struct Eval<'a> {
     s: &'a [u8],
     data: Rc<Vec<u8>>,
+    /// the source fails after the data instead of reporting a clean end (the error stays parked)
+    fail: bool,
 }
 
 impl<'a> Eval<'a> {
@@ -138,7 +140,10 @@ impl<'a> Eval<'a> {
     /// and the reader advanced by `adv` (so the scanner's offset is relative to position `adv`).
     fn strict(&self, rep: &mut Report, f: F, o: usize, pat: &[u8], pre: usize, adv: usize) {
         let s = self.s;
-        let src = Src::new(self.data.clone(), Policy::Fixed(1), 0);
+        let mut src = Src::new(self.data.clone(), Policy::Fixed(1), 0);
+        if self.fail {
+            src = src.failing_at(s.len());
+        }
         let mut r = DeferredReader::from_read(src.clone());
         r.set_chunk_size(1);
         let (got, pos_before, pos_after, delivered_before, delivered_after, calls) = sut(|| {
@@ -240,7 +245,10 @@ impl<'a> Eval<'a> {
     /// Evaluation under an arbitrary schedule/chunk: result + "no read once the deciding byte is buffered".
     fn loose(&self, rep: &mut Report, f: F, o: usize, pat: &[u8], policy: Policy, chunk: usize, seed: u64, pre: usize) {
         let s = self.s;
-        let src = Src::new(self.data.clone(), policy.clone(), seed).with_calls();
+        let mut src = Src::new(self.data.clone(), policy.clone(), seed).with_calls();
+        if self.fail {
+            src = src.failing_at(s.len());
+        }
         let mut r = DeferredReader::from_read(src.clone());
         r.set_chunk_size(chunk);
         let (got, pos_before, pos_after, d0, ncalls0) = sut(|| {
@@ -345,6 +353,7 @@ impl Monitor for C16 {
             let ev = Eval {
                 s: &s,
                 data: Rc::new(s.clone()),
+                fail: false,
             };
             rep.inc("strings");
             for o in 0..=s.len() + 1 {
@@ -383,6 +392,18 @@ impl Monitor for C16 {
                 if o <= s.len() {
                     let pre = s.len() + 1;
                     let adv = if o > 0 { (idx as usize) % (o + 1) } else { 0 };
+                    // ... and on one whose source failed after the data (error pending in the reader)
+                    let evf = Eval {
+                        s: &s,
+                        data: ev.data.clone(),
+                        fail: true,
+                    };
+                    for f in [F::Blanks, F::Newline, F::NextNewline] {
+                        evf.strict(rep, f, o, &[], if idx % 2 == 0 { pre } else { 0 }, 0);
+                    }
+                    let psf = patterns(&s, o, None);
+                    evf.strict(rep, F::Fixed, o, &psf[(idx as usize + 2) % psf.len()], if idx % 2 == 0 { pre } else { 0 }, 0);
+                    rep.inc("evals_with_a_source_that_fails_after_the_data");
                     for f in [F::Blanks, F::Newline, F::NextNewline] {
                         ev.strict(rep, f, o, &[], pre, 0);
                         if adv > 0 {
@@ -411,6 +432,7 @@ impl Monitor for C16 {
             let ev = Eval {
                 s: &s,
                 data: Rc::new(s.clone()),
+                fail: false,
             };
             rep.inc("strings");
             rep.inc("words");
@@ -450,6 +472,7 @@ impl Monitor for C16 {
             let ev = Eval {
                 s: &s,
                 data: Rc::new(s.clone()),
+                fail: false,
             };
             rep.inc("strings");
             for _ in 0..6 {
